@@ -603,6 +603,8 @@ class Scenario:
             except Exception as e:  # noqa: BLE001
                 err = type(e).__name__
             K.settle()
+            if same_object and rep is not None:
+                K.drain(rep)
             be.fault = None
             rp = {'kind': 'scenario', 'idx': self.idx, 'tier': self.tier, 'part': 'fault', 'call': i}
             saved = None
